@@ -260,5 +260,7 @@ def _check_main(ctx, rep: Report):
 def check(ctx, rep):
     from . import metarules, shared
     _check_main(ctx, rep)
+    from . import metarules, r5rules
+    r5rules.modules_copyable_sites(ctx, rep, "C20.REGION")
     metarules.deepcopy_callers(ctx, rep, "C20.DC")
     metarules.publication_last(ctx, rep, "C20.PERS", "_modules_copyable.__new__", "cls.__instance__")
